@@ -651,7 +651,20 @@ Theorem C03_refreshed_forgery_is_not_noticed :
   inp_entry_with shortcut_full (record_of wit_c0) (fs_run (Some wit_c0) wit_forgery) = (false, 0, false).
 Proof. exact forgery_not_noticed. Qed.
 
-(* NOT TRUE (finding C03-unreadable-input, open): "an input that changes underneath a running step
+(* A path that is no longer a readable regular file when it is checked (replaced by a directory,
+   permissions withdrawn; FileHash.refreshed raises): since 9b8c8cd (fix of D44, found by this check)
+   compute_inp_hashes reports it as changed -- entered in new_hashes with message kind 2 -- for every
+   record of an existing file, hence unexpected_input_changes is True whatever the other inputs are:
+   FAILED and draining like any other modification (C03_changed_input_fails_and_drains: in the hash
+   codes of Fresh.v the path now has the code of an absent file).  unreadable_input_reported is the
+   generated fact; FreshStatProofs.unreadable_reported_source breaks if the fix is reverted. *)
+Theorem C03_unreadable_input_is_reported :
+  forall old : fhash, is_unknown_gen old = false ->
+    inp_entry_path old PUnreadable = Some (true, 2, false) /\
+    forall rest, inputs_changed_gen ((true, 2, false) :: rest) = true.
+Proof. intros old H. split; [exact (unreadable_input_is_reported old H)|reflexivity]. Qed.
+
+(* NOT TRUE (finding C03-unreadable-input, fixed by 9b8c8cd: the hash thread no longer fails for such an input; kept as the statement about a hash thread that fails outright): "an input that changes underneath a running step
    makes it fail and stops further dispatch" for EVERY way the post-run hash computation can end.
    When the input is no longer a readable regular file (replaced by a directory, permissions
    withdrawn) FileHash.refreshed raises inside the hash thread; Executor._run_work_thread turns that
